@@ -134,6 +134,9 @@ func implIsValue(iface string, t reflect.Type) bool {
 type planGen struct {
 	t     *rapid.T
 	depth int
+	kind  string // the stanza whose direct children are being generated: Message Presence IQ
+	// a generic node took the name of an extension that is registered for another stanza kind
+	borrowed bool
 	// stats
 	metachar bool
 	nexts    int
@@ -163,10 +166,30 @@ func (g *planGen) text(label string) string {
 	return s
 }
 
+// names of extensions registered for one stanza kind only: as a direct child of another kind of stanza an element of
+// that name is an unknown extension and stays a generic node
+var c01Registered = map[string][][2]string{
+	"Message":  {{"jabber:x:oob", "x"}, {"urn:xmpp:receipts", "request"}, {"urn:xmpp:receipts", "received"}, {"urn:xmpp:hints", "no-store"}, {"http://jabber.org/protocol/chatstates", "active"}, {"urn:xmpp:chat-markers:0", "markable"}, {"http://jabber.org/protocol/pubsub#event", "event"}},
+	"Presence": {{"http://jabber.org/protocol/muc", "x"}},
+	"IQ":       {{"jabber:iq:roster", "query"}, {"jabber:iq:version", "query"}, {"http://jabber.org/protocol/disco#info", "query"}, {"http://jabber.org/protocol/disco#items", "query"}, {"http://jabber.org/protocol/pubsub", "pubsub"}, {"http://jabber.org/protocol/commands", "command"}, {"urn:ietf:params:xml:ns:xmpp-bind", "bind"}},
+}
+
 func (g *planGen) node(depth int) interface{} {
 	m := map[string]interface{}{
 		"Space": rapid.SampledFrom(c01NodeNS).Draw(g.t, "nodeNS"),
 		"Local": genNCName(g.t, "nodeName"),
+	}
+	if depth == 0 && g.kind != "" && rapid.IntRange(0, 4).Draw(g.t, "borrowName") == 0 {
+		var pool [][2]string
+		for k, l := range c01Registered {
+			if k != g.kind {
+				pool = append(pool, l...)
+			}
+		}
+		sort.Slice(pool, func(i, j int) bool { return pool[i][0]+pool[i][1] < pool[j][0]+pool[j][1] })
+		nm := rapid.SampledFrom(pool).Draw(g.t, "borrowed")
+		m["Space"], m["Local"] = nm[0], nm[1]
+		g.borrowed = true
 	}
 	na := rapid.IntRange(0, 2).Draw(g.t, "nattrs")
 	var attrs []interface{}
@@ -344,6 +367,15 @@ func (g *planGen) value(typ reflect.Type, key string) interface{} {
 		return g.iface(typ.Name())
 	case reflect.Struct:
 		m := map[string]interface{}{}
+		if n := typ.Name(); n == "Message" || n == "Presence" || n == "IQ" {
+			saved := g.kind
+			g.kind = n
+			defer func() { g.kind = saved }()
+		} else if g.kind != "" {
+			saved := g.kind
+			g.kind = "" // inside an extension: no longer a direct child of the stanza
+			defer func() { g.kind = saved }()
+		}
 		for i := 0; i < typ.NumField(); i++ {
 			f := typ.Field(i)
 			if f.PkgPath != "" { // unexported
@@ -366,7 +398,9 @@ func (g *planGen) value(typ reflect.Type, key string) interface{} {
 		}
 		if typ == tIQ {
 			// at most one of Payload / Any
-			if _, has := m["Payload"]; !has && rapid.Bool().Draw(g.t, "iqAny") && g.depth < c01MaxDepth {
+			// (Payload and Any exclude each other; a generic payload every sixth time)
+			if _, has := m["Payload"]; (!has && rapid.Bool().Draw(g.t, "iqAny") || rapid.IntRange(0, 5).Draw(g.t, "iqAnyInstead") == 3) && g.depth < c01MaxDepth {
+				delete(m, "Payload")
 				m["Any"] = g.node(0)
 			}
 			if m["Type"] == nil {
